@@ -32,6 +32,27 @@ var c03Alphabet = []c03Val{
 	{"missing", func(r Row, c string) {}, ref.Missing()},
 }
 
+// c03Typed: the same small numbers as every Go numeric type a caller may put into a row (float32 values are
+// exactly representable); aggregates must not depend on the Go type of a number.
+var c03Typed = []c03Val{
+	{"int(3)", func(r Row, c string) { r[c] = int(3) }, ref.Num(3)},
+	{"int8(3)", func(r Row, c string) { r[c] = int8(3) }, ref.Num(3)},
+	{"int16(-2)", func(r Row, c string) { r[c] = int16(-2) }, ref.Num(-2)},
+	{"int32(3)", func(r Row, c string) { r[c] = int32(3) }, ref.Num(3)},
+	{"int64(-2)", func(r Row, c string) { r[c] = int64(-2) }, ref.Num(-2)},
+	{"uint(3)", func(r Row, c string) { r[c] = uint(3) }, ref.Num(3)},
+	{"uint8(1)", func(r Row, c string) { r[c] = uint8(1) }, ref.Num(1)},
+	{"uint16(3)", func(r Row, c string) { r[c] = uint16(3) }, ref.Num(3)},
+	{"uint32(1)", func(r Row, c string) { r[c] = uint32(1) }, ref.Num(1)},
+	{"uint64(3)", func(r Row, c string) { r[c] = uint64(3) }, ref.Num(3)},
+	{"float32(2.5)", func(r Row, c string) { r[c] = float32(2.5) }, ref.Num(2.5)},
+	{"float64(2.5)", func(r Row, c string) { r[c] = 2.5 }, ref.Num(2.5)},
+	{"NULL", func(r Row, c string) { r[c] = nil }, ref.Null()},
+}
+
+// c03Cur is the alphabet of the running unit (a worker process runs one unit).
+var c03Cur = c03Alphabet
+
 type c03Cfg struct {
 	Query string `json:"query"` // main | pct | expr | groups
 	N     int    `json:"n"`
@@ -57,6 +78,7 @@ func c03Configs(tier string) []c03Cfg {
 	for n := 1; n <= exprN; n++ {
 		out = append(out, c03Cfg{"expr", n, "single"})
 	}
+	out = append(out, c03Cfg{"typed", 2, "single"}, c03Cfg{"typed-pct", 2, "single"})
 	out = append(out, c03Cfg{"groups", 2, "single"})
 	if tier == "thorough" {
 		out = append(out, c03Cfg{"groups", 3, "single"})
@@ -68,6 +90,10 @@ var c03Pcts = []float64{0, 0.25, 0.5, 0.95, 1}
 
 func c03SQL(cfg c03Cfg) string {
 	switch cfg.Query {
+	case "typed":
+		return c03SQL(c03Cfg{"main", cfg.N, cfg.Mode})
+	case "typed-pct":
+		return c03SQL(c03Cfg{"pct", cfg.N, cfg.Mode})
 	case "main":
 		return fmt.Sprintf("SELECT count(*) AS n, count(v) AS c, sum(v) AS s, avg(v) AS a, min(v) AS mi, max(v) AS ma, stddev(v) AS sd, stddevs(v) AS sds, var(v) AS va, vars(v) AS vs, median(v) AS med, first_value(v) AS fv, last_value(v) AS lv, collect(v) AS col, deduplicate(v) AS dd, merge_agg(v) AS mg FROM stream GROUP BY CountingWindow(%d)", cfg.N)
 	case "pct":
@@ -104,7 +130,7 @@ func sequences(n, k int, f func([]int)) {
 func c03Names(seq []int) []string {
 	out := make([]string, len(seq))
 	for i, x := range seq {
-		out[i] = c03Alphabet[x].Name
+		out[i] = c03Cur[x].Name
 	}
 	return out
 }
@@ -112,7 +138,7 @@ func c03Names(seq []int) []string {
 func c03RefVals(seq []int) []ref.Val {
 	out := make([]ref.Val, len(seq))
 	for i, x := range seq {
-		out[i] = c03Alphabet[x].Ref
+		out[i] = c03Cur[x].Ref
 	}
 	return out
 }
@@ -432,6 +458,9 @@ func (c03) Plan(tier string) []fw.Unit {
 }
 
 func c03Sig(cfg c03Cfg, col string, vals []ref.Val) string {
+	if strings.HasPrefix(col, "sd=sample-formula") {
+		return "C03|main|" + col // one root cause (stddev registered as the sample deviation) whatever the sweep
+	}
 	return fmt.Sprintf("C03|%s|%s", cfg.Query, col)
 }
 
@@ -440,7 +469,11 @@ func (c03) Run(u fw.Unit) fw.Result {
 	cfg := c03Configs(u.Tier)[sp.Cfg]
 	a := newAcc("C03", "det-agg-"+cfg.Query)
 	sql := c03SQL(cfg)
-	K := len(c03Alphabet)
+	_ = cfg
+	if cfg.Query == "typed" || cfg.Query == "typed-pct" {
+		c03Cur = c03Typed
+	}
+	K := len(c03Cur)
 	dump := os.Getenv("VERIF_PROBE") != ""
 	switch {
 	case cfg.Query == "groups":
@@ -576,7 +609,7 @@ func (c03) Run(u fw.Unit) fw.Result {
 							e.Emit(row)
 						} else {
 							row := Row{}
-							c03Alphabet[x].Set(row, "v")
+							c03Cur[x].Set(row, "v")
 							e.Emit(row)
 						}
 					}
@@ -605,7 +638,7 @@ func (c03) Run(u fw.Unit) fw.Result {
 				var names any
 				var vals []ref.Val
 				switch cfg.Query {
-				case "main":
+				case "main", "typed":
 					vals = c03RefVals(s)
 					names = c03Names(s)
 					fs := c03CheckMainAll(row, vals, true)
@@ -615,7 +648,7 @@ func (c03) Run(u fw.Unit) fw.Result {
 					if len(fs) > 1 {
 						a.fail(c03Sig(cfg, fs[1][0], vals), fs[1][1], map[string]any{"cfg": cfg, "sql": sql, "batch": names, "direction": dir}, nil, row)
 					}
-				case "pct":
+				case "pct", "typed-pct":
 					vals = c03RefVals(s)
 					names = c03Names(s)
 					col, what = c03CheckPct(row, vals)
@@ -650,7 +683,7 @@ func (c03) Run(u fw.Unit) fw.Result {
 func (c03) Describe(tier string) fw.Description {
 	return fw.Description{
 		Level: "model_checking",
-		Rule: "bounded-exhaustive enumeration on the real engine (CountingWindow(N) batches, deterministic schedule): all value sequences of length N over {-2,0,1,2.5,NULL,missing} for 16 aggregate columns, percentile(p in 0,.25,.5,.95,1)/nth_value, expression arguments (v+w, v*2, (v-1)*2, d.x) over all pairs of values per row; every batch runs on an instance shared with all other batches in forward and reverse enumeration order (state leak between consecutive batches), all ordered pairs of batches for N<=2 on fresh instances, and two interleaved groups in one tumbling window for all pairs of per-group sequences; compared with ref.Agg; a case = one batch; non-trivial = a result row was delivered and compared",
+		Rule: "bounded-exhaustive enumeration on the real engine (CountingWindow(N) batches, deterministic schedule): all value sequences of length N over {-2,0,1,2.5,NULL,missing} for 16 aggregate columns, percentile(p in 0,.25,.5,.95,1)/nth_value, expression arguments (v+w, v*2, (v-1)*2, d.x) over all pairs of values per row; every batch runs on an instance shared with all other batches in forward and reverse enumeration order (state leak between consecutive batches), all ordered pairs of batches for N<=2 on fresh instances, and two interleaved groups in one tumbling window for all pairs of per-group sequences; all pairs of values over the 12 Go numeric types (int8..uint64, float32, float64) for every aggregate; compared with ref.Agg; a case = one batch; non-trivial = a result row was delivered and compared",
 		Bounds:      map[string]any{"N": map[string]int{"quick": 4, "thorough": 6}, "alphabet": []string{"-2", "0", "1", "2.5", "NULL", "missing"}},
 		Assumptions: []string{"percentile: only the order-statistic bracket and p=0/1 are asserted (the docs fix no interpolation rule)", "stddevs/vars are compared only for >=2 usable values; median/percentile/stddev/var over no usable input are not asserted (property fixes NULL only for sum/avg/min/max)", "nth_value with NULL/missing rows: both readings (n-th row / n-th usable value) accepted", "floats compared with relative tolerance 1e-9"},
 	}
